@@ -44,6 +44,7 @@ def run(idx: ProgramIndex, rep: Report, tier: str):
     configured_defaults(idx, rep)
     sibling_keyword_split(idx, rep)
     full_noise_used(idx, rep)
+    call_time_noise_forwarded(idx, rep)
 
 
 def marginals(idx: ProgramIndex, rep: Report):
@@ -588,3 +589,54 @@ def full_noise_used(idx: ProgramIndex, rep: Report):
                     "%s.%s takes only the diagonal of _shaped_noise_covar(...), but %s._shaped_noise_covar can build a non-diagonal noise (`%s`): inter-task noise correlations are ignored in %s" % (
                         m.cls.qualname if m.cls else "", mname, cls.qualname, " ".join(src(nondiag[0]).split())[:40], "E[log p(y|f)]" if mname == "expected_log_prob" else "p(y | f)"), {})
     rep.floor("C12-7", "likelihood methods over a possibly non-diagonal noise", n, 2)
+
+
+# ---- C12-8 ---------------------------------------------------------------------------------------------------------
+NOISE_CALLS = {"marginal", "forward", "_shaped_noise_covar", "expected_log_prob", "log_marginal", "noise_covar", "__call__"}
+
+
+def call_time_noise_forwarded(idx: ProgramIndex, rep: Report):
+    """'the noise passed at call time in place of the stored fixed noise': the call-time `noise=` travels as **kwargs from the public
+    entry points (__call__, marginal, expected_log_prob, log_marginal, forward) down to `noise_covar(..., **kwargs)`.  For every class
+    whose resolved `_shaped_noise_covar` hands **kwargs to the noise model, every method on that route which receives **kwargs must
+    pass them on at every call of the next stage (on self or super()): a single link that drops them makes that entry point use the
+    stored noise while its siblings use the call-time noise."""
+    rep.rule("C12-8", "call-time keyword arguments (noise=) are forwarded at every link from the public entry points of a Gaussian-family likelihood to its noise model")
+    base = idx.find_class("_GaussianLikelihoodBase")
+    n = 0
+    seen = set()
+    for cls in sorted([base] + list(idx.subclasses(base)), key=lambda c: c.qualname):
+        snc = cls.lookup("_shaped_noise_covar")
+        if snc is None:
+            continue
+        kw0 = snc.node.args.kwarg.arg if snc.node.args.kwarg else None
+        honours = kw0 is not None and any(isinstance(c.func, ast.Attribute) and c.func.attr == "noise_covar" and any(k.arg is None and isinstance(k.value, ast.Name) and k.value.id == kw0 for k in c.keywords) for c in calls_in(snc.node))
+        if not honours:
+            continue
+        for mname in sorted(NOISE_CALLS):
+            m = cls.lookup(mname)
+            if m is None or not m.module.name.startswith(idx.package) or (m.module.name, m.qualname) in seen:
+                continue
+            kw = m.node.args.kwarg.arg if m.node.args.kwarg else None
+            if kw is None:
+                continue
+            links = []
+            for c in calls_in(m.node):
+                f = c.func
+                if not (isinstance(f, ast.Attribute) and f.attr in NOISE_CALLS):
+                    continue
+                on_self = chain(f.value) == m.params[0] or (isinstance(f.value, ast.Call) and chain(f.value.func) == "super") or chain(f.value) == "%s.noise_covar" % m.params[0]
+                if f.attr == "noise_covar" and chain(f.value) == m.params[0]:
+                    on_self = True
+                if not on_self:
+                    continue
+                links.append((c, any(k.arg is None and isinstance(k.value, ast.Name) and k.value.id == kw for k in c.keywords)))
+            if not links:
+                continue
+            seen.add((m.module.name, m.qualname))
+            n += 1
+            dropped = [c for c, fw in links if not fw]
+            rep.add("C12-8", "%s:%s" % (m.module.name, m.qualname), m.where, not dropped,
+                    "%d link(s), each forwards **%s" % (len(links), kw) if not dropped else
+                    ", ".join("`%s` (line %d)" % (" ".join(src(c).split())[:60], c.lineno) for c in dropped) + " does not pass **%s on: a `noise=` given to this entry point never reaches the noise model, which then uses the stored fixed noise (or, for another event size, no fixed noise at all) while the sibling entry points use the call-time noise" % kw, {})
+    rep.floor("C12-8", "links on the call-time-noise route", n, 6)
